@@ -155,9 +155,13 @@ fn c18_separator_faults() {
 // C17: parser steps and unquoting
 // ---------------------------------------------------------------------------------------------
 fn ascii4() -> ([u8; 4], usize) {
+    ascii_upto(4)
+}
+
+fn ascii_upto(maxl: usize) -> ([u8; 4], usize) {
     let b: [u8; 4] = kani::any();
     let l: usize = kani::any();
-    kani::assume(l <= 4);
+    kani::assume(l <= maxl);
     kani::assume(b[0] < 0x80 && b[1] < 0x80 && b[2] < 0x80 && b[3] < 0x80);
     (b, l)
 }
@@ -206,15 +210,12 @@ fn c17_link_step() {
     }
 }
 
-//@ props=C17 tier=quick timeout=2400 mem=14 model=0 stub_fmt=0
-//@ functions=LinkAttributeParser::next, Unquote::new, Unquote::into_raw_str, str::find, str::split_at, str::trim
-//@ bounds=one step from every remaining attribute text that is an ASCII string of 0..4 bytes
-//@ what=no panic; key and raw value are substrings of the input, key before value; what remains is a suffix, strictly shorter when an item was produced
-//@ outside=non-ASCII input; inputs longer than 4 bytes
+macro_rules! c17_attr_step {
+    ($name:ident, $maxl:expr) => {
 #[kani::proof]
 #[kani::unwind(7)]
-fn c17_attr_step() {
-    let (b, l) = ascii4();
+fn $name() {
+    let (b, l) = ascii_upto($maxl);
     let s = unsafe { core::str::from_utf8_unchecked(&b[..l]) };
     let base = s.as_ptr() as usize;
     let mut p = LinkAttributeParser { inner: s };
@@ -233,10 +234,25 @@ fn c17_attr_step() {
             }
             kani::cover!(!raw.is_empty() && !key.is_empty(), "key=value");
             kani::cover!(!rest.is_empty(), "more attributes follow");
-            kani::cover!(raw.len() == 2 && raw.as_bytes()[0] == b'"', "a quoted value");
+            kani::cover!(raw.len() >= 1 && raw.as_bytes()[0] == b'"', "a value that starts with a quote");
         }
     }
 }
+    };
+}
+//@ props=C17 tier=quick timeout=850 mem=14 model=0 stub_fmt=0 name=c17_attr_step_3
+//@ functions=LinkAttributeParser::next, Unquote::new, Unquote::into_raw_str, str::find, str::split_at, str::trim
+//@ bounds=one step from every remaining attribute text that is an ASCII string of 0..3 bytes (4 bytes, 15 minutes, in the thorough tier)
+//@ what=no panic; key and raw value are substrings of the input, key before value; what remains is a suffix, strictly shorter when an item was produced
+//@ outside=non-ASCII input; inputs longer than 3 bytes (4 in the thorough tier)
+c17_attr_step!(c17_attr_step_3, 3);
+
+//@ props=C17 tier=thorough timeout=2400 mem=14 model=0 stub_fmt=0 name=c17_attr_step
+//@ functions=LinkAttributeParser::next, Unquote::new, Unquote::into_raw_str, str::find, str::split_at, str::trim
+//@ bounds=one step from every remaining attribute text that is an ASCII string of 0..4 bytes
+//@ what=no panic; key and raw value are substrings of the input, key before value; what remains is a suffix, strictly shorter when an item was produced
+//@ outside=non-ASCII input; inputs longer than 4 bytes
+c17_attr_step!(c17_attr_step, 4);
 
 //@ props=C17 tier=quick timeout=2400 mem=24 model=0 stub_fmt=0 witness=c17_cow_2 name=c17_cow
 //@ functions=Unquote::to_cow, Unquote::next, Unquote::is_quoted, Unquote::fmt (Display), str::find
